@@ -183,7 +183,7 @@ def replay(obj):
     if obj.get("stream") == "classfield":
         from harness import c02ext
         return c02ext.replay_class(obj)
-    ctx = S.Context()
+    ctx = S.Context(extra=[MEAS]) if obj.get("stream") == "unique-eq" else S.Context()
     f, v = obj["field"], obj["value"]
     obs = run_cases([(f, v)], ctx)[0]
     print("declaration:", G.field_src(f))
@@ -274,6 +274,118 @@ def lattice_cases():
     return out
 
 
+# ------------------------------------------------------------------ uniqueItems: equality, never hash
+
+MEAS = {"name": "Meas", "fields": [{"name": "x", "field": {"t": "num", "k": "Number", "s": "Any"}},
+                                   {"name": "m", "field": {"t": "mapany", "sz": [None, None]}}],
+        "required": [], "additional": False}
+
+
+def unique_eq_cases():
+    """Deterministic stream for uniqueItems (Array / Deque / Tuple): element pairs that are EQUAL under == but hash or
+    print differently (Structure instances with equal content: a Number field holding 1 / 1.0, a Map field in another
+    insertion order; 1 / 1.0 / True / Decimal(1); (1, 2) / (1.0, 2.0); frozenset / set), the same value twice, and the
+    converse -- UNEQUAL elements with equal hash (-1 / -2, 0 / 2**61-1) -- at every position pattern, alone and next
+    to a hashable / an unhashable third element (so that a hash-based and a scan-based path are both met).
+    The documented rule (no two equal elements) is the model's py_unique: by ==, never by hash."""
+    I = lambda z: ("int", z)
+    F = lambda x: ("flt",) + E.float_me(x)
+    st = lambda **kw: ("struct", "Meas", sorted(kw.items()))
+    d12 = ("dict", [(("str", "a"), I(1)), (("str", "b"), I(2))])
+    d21 = ("dict", [(("str", "b"), I(2)), (("str", "a"), I(1))])
+    import decimal
+    struct_pairs = [(st(x=I(1)), st(x=F(1.0))), (st(m=d12), st(m=d21)), (st(x=I(1)), st(x=I(1))),
+                    (st(x=I(1), m=d12), st(x=F(1.0), m=d21)),
+                    (st(x=I(1)), st(x=I(2))), (st(m=d12), st(m=("dict", [(("str", "a"), I(1))])))]
+    plain_pairs = [(I(1), F(1.0)), (I(1), ("bool", True)), (F(1.0), E.reify(decimal.Decimal(1))), (I(0), ("bool", False)),
+                   (("tuple", [I(1), I(2)]), ("tuple", [F(1.0), F(2.0)])), (("str", "a"), ("str", "a")),
+                   (("set", True, [I(1)]), ("set", False, [I(1)])), (("list", [I(1)]), ("list", [F(1.0)])),
+                   (I(-1), I(-2)), (I(0), I(2 ** 61 - 1)), (F(-1.0), I(-2)), (("str", "a"), ("str", "b"))]
+    thirds = [None, ("str", "zz"), ("list", [I(9)])]
+    ref = {"t": "ref", "cls": "Meas"}
+    out = []
+
+    def patterns(a, b, third_pool):
+        for c in third_pool:
+            if c is None:
+                yield [a, b]
+                yield [b, a]
+            else:
+                yield [c, a, b]
+                yield [a, c, b]
+                yield [b, a, c]
+    for kind in ("list", "deque"):
+        for a, b in struct_pairs + plain_pairs:
+            for items in patterns(a, b, thirds):
+                out.append(({"t": "seqany", "k": kind, "sz": [None, None], "uniq": True}, (kind, items)))
+                out.append(({"t": "seqeach", "k": kind, "item": {"t": "any"}, "sz": [None, None], "uniq": True}, (kind, items)))
+        for a, b in struct_pairs:
+            for items in patterns(a, b, [None, st(x=I(7))]):
+                out.append(({"t": "seqeach", "k": kind, "item": ref, "sz": [None, None], "uniq": True}, (kind, items)))
+                out.append(({"t": "seqpos", "k": kind, "items": [ref], "sz": [None, None], "uniq": True, "additional": None},
+                            (kind, items)))
+    for a, b in struct_pairs + plain_pairs:
+        for items in patterns(a, b, thirds):
+            out.append(({"t": "tuple", "items": [{"t": "any"}], "uniq": True}, ("tuple", items)))
+            if len(items) == 2:
+                out.append(({"t": "tuple", "items": [{"t": "any"}, {"t": "any"}], "uniq": True}, ("tuple", items)))
+    for a, b in struct_pairs:
+        out.append(({"t": "tuple", "items": [ref], "uniq": True}, ("tuple", [a, b])))
+        out.append(({"t": "tuple", "items": [ref, ref], "uniq": True}, ("tuple", [b, a])))
+    num = {"t": "num", "k": "Number", "s": "Any"}
+    for a, b in [(I(1), F(1.0)), (F(2.0), I(2)), (I(-1), I(-2)), (I(0), I(2 ** 61 - 1)), (I(3), I(3))]:
+        for kind in ("list", "deque"):
+            out.append(({"t": "seqeach", "k": kind, "item": num, "sz": [None, None], "uniq": True}, (kind, [a, b])))
+            out.append(({"t": "seqeach", "k": kind, "item": num, "sz": [None, None], "uniq": True}, (kind, [I(5), b, a])))
+        out.append(({"t": "tuple", "items": [num], "uniq": True}, ("tuple", [a, b])))
+    return out
+
+
+def run_unique_stream(rep, model_ok):
+    ctx = S.Context(extra=[MEAS])
+    ctx.instances["Meas"] = [("struct", "Meas", [("x", ("int", 1))])]
+    cases = unique_eq_cases()
+    observed = run_cases(cases, ctx)
+    keep = [i for i, o in enumerate(observed) if o[0] in ("ok", "raise")]
+    rep.cov["streams"]["unique-eq"] = {"evaluations": 0, "declarations_rejected_or_unrealisable": len(cases) - len(keep)}
+    cases = [cases[i] for i in keep]
+    observed = [observed[i] for i in keep]
+    for (f, v), o in zip(cases, observed):
+        kinds = sorted({x[0] for x in v[1]})
+        rep.count("unique-eq", 1, (G.shape(f), v[0], tuple(kinds), len(v[1]), o[0] if o[0] == "ok" else o[1]))
+        rep.stat("unique-eq", "kind:" + f["t"])
+        rep.stat("unique-eq", "elements:" + "+".join(kinds))
+        rep.stat("unique-eq", "outcome:" + (o[0] if o[0] == "ok" else o[1]))
+    if not model_ok or not cases:
+        return
+    try:
+        r = evaluate(cases, observed, ctx, tag="c02uniq")
+    except RuntimeError as ex:
+        rep.broken("correspondence:unique-eq/coq-eval", str(ex))
+        return
+    s = rep.cov["streams"]["unique-eq"]
+    s["in_statement_domain"] = len(r["in_domain"])
+    s["accepted"] = sum(1 for o in observed if o[0] == "ok")
+    for i in r["spec_fail"]:
+        f, v = cases[i]
+        o = observed[i]
+        kinds = "+".join(sorted({x[0] for x in v[1]}))
+        rep.finding("C02/unique-eq/%s/%s/%s/%s" % (f["t"], v[0], kinds, "accepted" if o[0] == "ok" else o[1]),
+                    "uniqueItems (no two equal elements) and implementation disagree: %s given %s -> %s" % (
+                        G.field_src(f), G.py_src(v), o),
+                    {"stream": "unique-eq", "field": f, "value": v, "observed": o, "python": python_src(f, v, ctx)})
+    rep.obligation("spec-on-observed:unique-eq", not r["spec_fail"],
+                   "%d in-domain cases, %d spec failures" % (len(r["in_domain"]), len(r["spec_fail"])))
+    sf = set(r["spec_fail"])
+    mism = [i for i in r["mismatch"] if i not in sf]
+    rep.obligation("correspondence:unique-eq", not mism, "%d cases, %d mismatches (outside reported spec failures)" % (
+        len(cases), len(mism)))
+    if mism and not any(not v["no_input"] for v in rep.violations) and not rep.known_hits:
+        f, v = cases[mism[0]]
+        rep.broken("correspondence:unique-eq", "model and typedpy differ on %d cases of the uniqueItems stream" % len(mism),
+                   {"stream": "unique-eq", "field": f, "value": v, "observed": observed[mism[0]], "python": python_src(f, v, ctx)})
+
+
 def run(rep, tier, pid="C02", prop_file="C02"):
     rnd = random.Random(core.seed() * 1000003 + 2)
     n = 2400 if tier == "quick" else 30000
@@ -341,6 +453,7 @@ def run(rep, tier, pid="C02", prop_file="C02"):
                            "hold on every explored input" % len(r["mismatch"]),
                            {"field": f, "value": v, "observed": observed[i], "python": python_src(f, v, ctx)})
     if pid == "C02":
+        run_unique_stream(rep, model_ok)
         # Enum fields over mix-in enum classes; fields over arbitrary classes (history of declarations)
         from harness import c02ext
         c02ext.run_enum_stream(rep, tier, model_ok)
